@@ -160,6 +160,9 @@ func TestC14Records(t *testing.T) {
 					u.aux = aux
 				}
 			} else {
+				if rapid.IntRange(0, 2).Draw(t, "samepw") == 0 {
+					pw, pcls, op = u.pw, "same-as-current", "update-same-password"
+				}
 				if err := d.UpdateUser(user, pw); err != nil {
 					t.Fatalf("VIOLATION C14: UpdateUser failed under %+v: %v", *def, err)
 				}
@@ -191,6 +194,20 @@ func TestC14Records(t *testing.T) {
 				override = "threads=1"
 			}
 			vlib.Class("write:" + def.Alg + ":" + override)
+			// age the record's timestamp (the digest does not depend on it): the next write must carry the current time again
+			if rapid.Bool().Draw(t, "age") {
+				fn := fileOf(base, user, u.admin)
+				if cur, err := os.ReadFile(fn); err == nil {
+					f := strings.SplitN(string(cur), ":", 3)
+					if len(f) == 3 {
+						os.WriteFile(fn, []byte(f[0]+":"+strconv.FormatInt(t0-int64(rapid.SampledFrom([]int{1, 2, 3600, 86400 * 400}).Draw(t, "ageby")), 10)+":"+f[2]), 0o600)
+						vlib.Class("record-aged-before-next-write")
+					}
+				}
+			}
+			if op == "update-same-password" {
+				vlib.Class("write:update-with-unchanged-password")
+			}
 			if override == "override-rp" || override == "threads>1" || len(pw) > 64 || pcls == "nonutf8" {
 				vlib.NT("c14", def.Alg, override, def.R, def.P, def.Threads, def.Length, def.Memory, pcls, op)
 			}
